@@ -1,5 +1,6 @@
 import RgVerif.Model.Utf8
 import RgVerif.Model.Interpolate
+import RgVerif.Model.Matcher
 /-
 Specification for C19: the *regex crate's* replacement-template grammar
 (regex-automata 0.4.7 `util/interpolate.rs`), written as a tokenizer, and
@@ -84,5 +85,45 @@ def braceHeadOk : Bytes → Bool
 def braceOk : Bytes → Bool
   | [] => true
   | b :: rest => braceHeadOk (b :: rest) && braceOk rest
+
+/-! ### Successive matches and replace-all, as the regex crate defines them
+
+`regex::bytes::Regex::captures_iter` (regex-automata `util::iter::Searcher::advance`): search from the
+end of the previous match; if the match found is empty and ends where the previous match ended, search
+again one byte further and take whatever that finds. -/
+
+open RgVerif.Matcher in
+def specIter (capsAt : Nat → Option Caps) (len : Nat) : Nat → Nat → Option Nat → List Caps
+  | 0, _, _ => []
+  | fuel + 1, pos, last =>
+    if pos > len then []
+    else match capsAt pos with
+      | none => []
+      | some c =>
+        let m := (c.get 0).getD ⟨0, 0⟩
+        if m.s == m.e && some m.e == last then
+          -- overlapping empty match: retry from `pos + 1`
+          if pos + 1 > len then []
+          else match capsAt (pos + 1) with
+            | none => []
+            | some c' =>
+              let m' := (c'.get 0).getD ⟨0, 0⟩
+              c' :: specIter capsAt len fuel m'.e (some m'.e)
+        else c :: specIter capsAt len fuel m.e (some m.e)
+
+open RgVerif.Matcher in
+/-- All matches of a haystack of length `len`, searching from `start`. `2 * len + 6` searches always
+suffice (each position is searched at most twice). -/
+def allMatches (capsAt : Nat → Option Caps) (len start : Nat) : List Caps :=
+  specIter capsAt len (2 * len + 6) start none
+
+open RgVerif.Matcher in
+/-- `replace_all` over the matches `ms` (in order) of `hay`, copying text between matches verbatim,
+starting the copy at `from_` and ending it at `to`. -/
+def replaceAllSpec (hay : Bytes) (expandOne : Caps → Bytes) : List Caps → Nat → Nat → Bytes
+  | [], from_, to => (hay.take to).drop from_
+  | c :: ms, from_, to =>
+    let m := (c.get 0).getD ⟨0, 0⟩
+    (hay.take m.s).drop from_ ++ expandOne c ++ replaceAllSpec hay expandOne ms m.e to
 
 end RgVerif.ReplaceSpec
